@@ -343,6 +343,7 @@ fn check_case(model: &mut Model, c: &Case, mut rep: Option<&mut Report>) -> Opti
     let ans = model.ask_many(&lines);
     let bound_units = usize::from_str_radix(&model.ask(&format!("sv {:x}", c.vol)), 16).unwrap();
     let bound = bound_units as f64 / 2000.0;
+    let mut pending: Option<Disagreement> = None;
     for (chk, a) in chks.iter().zip(ans.iter()) {
         match chk {
             Chk::None => {}
@@ -437,14 +438,17 @@ fn check_case(model: &mut Model, c: &Case, mut rep: Option<&mut Report>) -> Opti
                     }
                 }
                 if got != model_text {
-                    return Some(dis(
-                        Kind::ModelMismatch,
-                        if spec.is_some() { "C19/frame-contents" } else { "C19/pop-contents" },
-                        Some(*ev),
-                        format!("event #{}: samples popped differ from the Lean model", ev),
-                        got,
-                        model_text,
-                    ));
+                    // keep looking: a spec clause (queue bound) may be violated by the same cause
+                    if pending.is_none() {
+                        pending = Some(dis(
+                            Kind::ModelMismatch,
+                            if spec.is_some() { "C19/frame-contents" } else { "C19/pop-contents" },
+                            Some(*ev),
+                            format!("event #{}: samples popped differ from the Lean model", ev),
+                            got,
+                            model_text,
+                        ));
+                    }
                 }
             }
         }
@@ -458,6 +462,9 @@ fn check_case(model: &mut Model, c: &Case, mut rep: Option<&mut Report>) -> Opti
             format!("{}", final_len),
             format!("< {}", 2 * spf),
         ));
+    }
+    if pending.is_some() {
+        return pending;
     }
     if let Some(r) = rep {
         r.class(format!(
